@@ -1,0 +1,130 @@
+//go:build verif
+
+package compress
+
+// C08: the Gorilla codec returns every datapoint bit-exactly.
+//
+// The bit stream is abstracted to a ghost sequence of tokens (value, width):
+// stream S = ghost(bw,"sid") = ghost(br,"sid"); token k is
+// (ghostat(S,k,"tokv"), ghostat(S,k,"tokn")); the writer appends at
+// ghost(bw,"wpos"), the reader consumes at ghost(br,"rpos").
+// The bit I/O layer (bit_writer.go / bit_reader.go) is ASSUMED to implement
+// this view (Tier 2 in DESIGN.md); reading a token with another width than it
+// was written with is the desynchronisation obligation (`requires` of
+// readBits / readBit).  Checked by /verif/bin/govc.  Comment-only file.
+//@ ghostdecl sid int
+//@ ghostdecl wpos int
+//@ ghostdecl rpos int
+//@ ghostdecl tokv uint64
+//@ ghostdecl tokn int
+//@ ghostdecl expect uint64
+
+//@ spec maskbits(u uint64, n int) uint64 = ite(n >= 64, u, u & ((uint64(1) << uint64(n)) - 1))
+//@ spec tokIs(s int, k int, v uint64, n int) bool = ghostat(s, k, "tokn") == n && ghostat(s, k, "tokv") == v
+
+// ---- assumed bit I/O layer ---------------------------------------------------
+//@ func (*bitWriter).writeBits
+//@   assumed
+//@   requires b != nil && 0 <= nbits && nbits <= 64
+//@   modifies ghost(b, "wpos"), ghostat(ghost(b, "sid"), ghost(b, "wpos"), "tokv"), ghostat(ghost(b, "sid"), ghost(b, "wpos"), "tokn"), b.buffer, b.count
+//@   ensures implies(result == nil, ghost(b, "wpos") == old(ghost(b, "wpos")) + 1 && tokIs(ghost(b, "sid"), old(ghost(b, "wpos")), maskbits(u64, nbits), nbits))
+//@ end
+
+//@ func (*bitWriter).writeBit
+//@   assumed
+//@   requires b != nil
+//@   modifies ghost(b, "wpos"), ghostat(ghost(b, "sid"), ghost(b, "wpos"), "tokv"), ghostat(ghost(b, "sid"), ghost(b, "wpos"), "tokn"), b.buffer, b.count
+//@   ensures implies(result == nil, ghost(b, "wpos") == old(ghost(b, "wpos")) + 1 && tokIs(ghost(b, "sid"), old(ghost(b, "wpos")), ite(bit, uint64(1), uint64(0)), 1))
+//@ end
+
+//@ func (*bitReader).readBits
+//@   assumed
+//@   requires b != nil && ghostat(ghost(b, "sid"), ghost(b, "rpos"), "tokn") == nbits
+//@   modifies ghost(b, "rpos"), b.count
+//@   ensures implies(result1 == nil, ghost(b, "rpos") == old(ghost(b, "rpos")) + 1 && result0 == ghostat(ghost(b, "sid"), old(ghost(b, "rpos")), "tokv"))
+//@ end
+
+//@ func (*bitReader).readBit
+//@   assumed
+//@   requires b != nil && ghostat(ghost(b, "sid"), ghost(b, "rpos"), "tokn") == 1
+//@   modifies ghost(b, "rpos"), b.count
+//@   ensures implies(result1 == nil, ghost(b, "rpos") == old(ghost(b, "rpos")) + 1 && result0 == (ghostat(ghost(b, "sid"), old(ghost(b, "rpos")), "tokv") == 1))
+//@ end
+
+// ---- leading / trailing zero counts -------------------------------------------
+//@ func leardingZeros
+//@   props C08
+//@   ensures result == clz64(v)
+//@   pure
+//@   safe
+//@   loop 1:
+//@     invariant ret <= 64 && implies(ret < 64, mask == uint64(0x8000000000000000) >> uint64(ret)) && implies(ret == 64, mask == 0)
+//@     invariant implies(ret > 0, v >> (64 - uint64(ret)) == 0)
+//@ end
+
+//@ func trailingZeros
+//@   props C08
+//@   ensures result == ctz64(v)
+//@   pure
+//@   safe
+//@   loop 1:
+//@     invariant ret <= 64 && implies(ret < 64, mask == uint64(1) << uint64(ret)) && implies(ret == 64, mask == 0)
+//@     invariant implies(ret > 0, v << (64 - uint64(ret)) == 0)
+//@ end
+
+// ---- value encoder ---------------------------------------------------------------
+// Encoder state invariant: nothing written yet (leadingZeros == 255) or a
+// window lz+tz <= 63 with lz <= 31 (the leading-zero count is stored in 5 bits).
+//@ spec encStateOK(lz uint8, tz uint8) bool = (lz == 255 && tz == 0) || (lz <= 31 && tz <= 63 && int(lz) + int(tz) <= 63)
+// lz written for a new window: clamped to the 5 bits it is stored in
+//@ spec newLz(x uint64) uint8 = ite(clz64(x) >= 32, uint8(31), clz64(x))
+// token pattern for one value x after previous value prev in window (lz,tz)
+//@ spec encV(s int, p int, lz uint8, tz uint8, prev uint64, x uint64) bool = ite(prev ^ x == 0, tokIs(s, p, 0, 1), tokIs(s, p, 1, 1) && ite(lz <= clz64(prev ^ x) && tz <= ctz64(prev ^ x), tokIs(s, p+1, 0, 1) && tokIs(s, p+2, (prev ^ x) >> uint64(tz), 64 - int(lz) - int(tz)) && ((prev ^ x) >> uint64(tz)) << uint64(tz) == prev ^ x, tokIs(s, p+1, 1, 1) && tokIs(s, p+2, uint64(newLz(prev ^ x)), 5) && tokIs(s, p+3, uint64((64 - newLz(prev ^ x) - ctz64(prev ^ x)) & 63), 6) && tokIs(s, p+4, (prev ^ x) >> uint64(ctz64(prev ^ x)), 64 - int(newLz(prev ^ x)) - int(ctz64(prev ^ x))) && ((prev ^ x) >> uint64(ctz64(prev ^ x))) << uint64(ctz64(prev ^ x)) == prev ^ x))
+//@ spec encVLen(lz uint8, tz uint8, prev uint64, x uint64) int = ite(prev ^ x == 0, 1, ite(lz <= clz64(prev ^ x) && tz <= ctz64(prev ^ x), 3, 5))
+//@ spec encVLz(lz uint8, tz uint8, prev uint64, x uint64) uint8 = ite(prev ^ x == 0 || (lz <= clz64(prev ^ x) && tz <= ctz64(prev ^ x)), lz, newLz(prev ^ x))
+//@ spec encVTz(lz uint8, tz uint8, prev uint64, x uint64) uint8 = ite(prev ^ x == 0 || (lz <= clz64(prev ^ x) && tz <= ctz64(prev ^ x)), tz, ctz64(prev ^ x))
+
+//@ func (*Compressor).compressValue
+//@   props C08
+//@   requires c != nil && c.bw != nil && !isNaN(v) && encStateOK(c.leadingZeros, c.trailingZeros) && ghost(c.bw, "wpos") >= 0 && ghost(c.bw, "wpos") <= 1000000000
+//@   ensures [value] implies(result1 == nil, c.value == f64bits(v))
+//@   ensures [tokens] implies(result1 == nil, encV(ghost(c.bw, "sid"), old(ghost(c.bw, "wpos")), old(c.leadingZeros), old(c.trailingZeros), old(c.value), f64bits(v)))
+//@   ensures [advance] implies(result1 == nil, ghost(c.bw, "wpos") == old(ghost(c.bw, "wpos")) + encVLen(old(c.leadingZeros), old(c.trailingZeros), old(c.value), f64bits(v)))
+//@   ensures [window] implies(result1 == nil, c.leadingZeros == encVLz(old(c.leadingZeros), old(c.trailingZeros), old(c.value), f64bits(v)) && c.trailingZeros == encVTz(old(c.leadingZeros), old(c.trailingZeros), old(c.value), f64bits(v)))
+//@   ensures [state-ok] implies(result1 == nil, encStateOK(c.leadingZeros, c.trailingZeros))
+//@   ensures [same-stream] ghost(c.bw, "sid") == old(ghost(c.bw, "sid")) && c.bw == old(c.bw)
+//@   modifies c.value, c.leadingZeros, c.trailingZeros, c.bw.buffer, c.bw.count, ghost(c.bw, "wpos"), ghostseq("tokv"), ghostseq("tokn")
+//@   note the frame (modifies) of this verified function is not itself checked
+//@ end
+
+// ---- value decoder -------------------------------------------------------------
+// ghost(d,"elz") / ghost(d,"etz"): the ENCODER's window when it produced the
+// upcoming tokens; ghost(d,"expect"): the value bits it encoded.  Coupling of
+// the two state machines: before the first new-window record the encoder's
+// window is the sentinel 255 and the decoder's is irrelevant, afterwards they
+// are equal.
+//@ ghostdecl elz uint8
+//@ ghostdecl etz uint8
+//@ spec coupled(elz uint8, etz uint8, dlz uint8, dtz uint8) bool = elz == 255 || (elz == dlz && etz == dtz)
+
+//@ func (*Decompressor).decompressValue
+//@   props C08
+//@   requires d != nil && d.br != nil && ghost(d.br, "rpos") >= 0 && ghost(d.br, "rpos") <= 1000000000
+//@   requires encStateOK(ghost(d, "elz"), ghost(d, "etz")) && coupled(ghost(d, "elz"), ghost(d, "etz"), d.leadingZeros, d.trailingZeros)
+//@   requires encV(ghost(d.br, "sid"), ghost(d.br, "rpos"), ghost(d, "elz"), ghost(d, "etz"), d.value, ghost(d, "expect"))
+//@   ensures [bit-exact] implies(result1 == nil, d.value == ghost(d, "expect") && feq(result0, f64frombits(ghost(d, "expect"))))
+// intermediate facts at the payload read (proved there, then available to the postconditions)
+//@   site call d.br.readBits #3:
+//@     assert [window-known] d.leadingZeros == encVLz(ghost(d, "elz"), ghost(d, "etz"), old(d.value), ghost(d, "expect")) && d.trailingZeros == encVTz(ghost(d, "elz"), ghost(d, "etz"), old(d.value), ghost(d, "expect"))
+//@     assert [payload-next] ghostat(ghost(d.br, "sid"), ghost(d.br, "rpos"), "tokv") == (old(d.value) ^ ghost(d, "expect")) >> uint64(d.trailingZeros)
+//@     assert [low-bits-zero] ((old(d.value) ^ ghost(d, "expect")) >> uint64(d.trailingZeros)) << uint64(d.trailingZeros) == old(d.value) ^ ghost(d, "expect")
+//@     assert [value-unchanged] d.value == old(d.value)
+//@   ensures [consumed] implies(result1 == nil, ghost(d.br, "rpos") == old(ghost(d.br, "rpos")) + encVLen(ghost(d, "elz"), ghost(d, "etz"), old(d.value), ghost(d, "expect")))
+//@   ensures [coupled] implies(result1 == nil, coupled(encVLz(ghost(d, "elz"), ghost(d, "etz"), old(d.value), ghost(d, "expect")), encVTz(ghost(d, "elz"), ghost(d, "etz"), old(d.value), ghost(d, "expect")), d.leadingZeros, d.trailingZeros))
+//@   ensures [same-stream] ghost(d.br, "sid") == old(ghost(d.br, "sid")) && d.br == old(d.br)
+//@   modifies d.value, d.leadingZeros, d.trailingZeros, d.br.count, ghost(d.br, "rpos")
+//@   note the frame (modifies) of this verified function is not itself checked
+//@   loop 1:
+//@     invariant d.br == old(d.br) && d.value == old(d.value) && d.leadingZeros == old(d.leadingZeros) && d.trailingZeros == old(d.trailingZeros)
+//@     invariant (i == 0 && read == 0 && ghost(d.br, "rpos") == old(ghost(d.br, "rpos"))) || (i == 1 && read == 1 && ghost(d.br, "rpos") == old(ghost(d.br, "rpos")) + 1 && ghostat(ghost(d.br, "sid"), old(ghost(d.br, "rpos")), "tokv") == 1) || (i == 2 && read == 3 && ghost(d.br, "rpos") == old(ghost(d.br, "rpos")) + 2 && ghostat(ghost(d.br, "sid"), old(ghost(d.br, "rpos")), "tokv") == 1 && ghostat(ghost(d.br, "sid"), old(ghost(d.br, "rpos")) + 1, "tokv") == 1)
+//@ end
